@@ -193,7 +193,10 @@ CHECKS["C16"] = dict(
          "potential and NNLS fit through recording contracts): the plain solver receives the caller's grid/transform/keywords and rho minus the core "
          "densities (resp. the fit's residual), the returned callable is core + fit + numerical potential at every point and on repeated "
          "evaluation, each atom's potential uses the same parameters and centre as its subtracted density, the caller's density is not "
-         "written, argument validation. The accuracy statements of the property (BVP/IVP solutions against closed-form potentials of s/p/d/f "
+         "written, argument validation; _interpolate_molgrid_helper (per-atom segments of f x aim weights, sum of the atomic solutions, frame); "
+         "_solve_poisson_bvp/ivp_atomgrid under nested loop contracts: for every harmonic row the ODE layer receives the radial Poisson equation of its degree "
+         "(right-hand side -4 pi [r] rho_row, coefficients -l(l+1)/r^2, [2/r], 1, sampled when the solver is called), the boundary / initial values of the "
+         "monopole only for l = m = 0, and the potential is sum_rows [u/r | y] Y_row. The accuracy statements of the property (BVP/IVP solutions against closed-form potentials of s/p/d/f "
          "Gaussians, linearity, option matrix, exact cancellation, sum-over-atoms identity) rest on SciPy's ODE solver and splines and are "
          "decided by the bounded layer only; three recorded findings.",
     design="8/C16",
